@@ -624,6 +624,12 @@ def axioms_for(formulas):
                 img = cs.lower() if a.decl().name() == "py_lower" else cs.upper()
                 mk = z3.PrefixOf if fx.decl().name() == "str.prefixof" else z3.SuffixOf
                 out.append(z3.Implies(fx, mk(z3.StringVal(img), a)))
+    for a in casemaps:
+        img = (lambda c: c.lower()) if a.decl().name() == "py_lower" else (lambda c: c.upper())
+        for cond, c in _const_ends(a.arg(0), suffix=True):
+            out.append(z3.Implies(cond, z3.SuffixOf(z3.StringVal(img(c)), a)))
+        for cond, c in _const_ends(a.arg(0), suffix=False):
+            out.append(z3.Implies(cond, z3.PrefixOf(z3.StringVal(img(c)), a)))
     for a in apps:
         if a.get_id() in done:
             continue
@@ -637,6 +643,10 @@ def axioms_for(formulas):
                 c = z3.StringVal(ch)
                 out.append(z3.PrefixOf(c, a) == z3.PrefixOf(c, x))
                 out.append(z3.SuffixOf(c, a) == z3.SuffixOf(c, x))
+        if n == "py_lower":
+            out.append(z3.Implies(z3.InRe(a.arg(0), _NO_UPPER), a == a.arg(0)))   # ASCII text without capitals is its own lower()
+        if n == "py_upper":
+            out.append(z3.Implies(z3.InRe(a.arg(0), _NO_LOWER), a == a.arg(0)))
         if n == "py_lower":
             out.append(py_lower(a) == a)                      # lower is idempotent
             out.append(py_lower(py_upper(py_lower(a.arg(0)))) == a)  # lower∘upper∘lower = lower (true for all code points? validated by bounded check)
@@ -683,6 +693,31 @@ def axioms_for(formulas):
             out.append(z3.Implies(s == z3.StringVal(""), a == z3.StringVal("")))
             out.append(z3.Implies(k >= 0, z3.Length(a) == z3.Length(s) * k))
     return out
+
+
+_NO_UPPER = z3.Star(z3.Union(z3.Range(" ", "@"), z3.Range("[", "~")))
+_NO_LOWER = z3.Star(z3.Union(z3.Range(" ", "`"), z3.Range("{", "~")))
+
+
+def _const_ends(x, suffix, depth=0):
+    """[(condition, constant)]: under the condition, the term x ends (starts) with the ASCII constant"""
+    if depth > 4:
+        return []
+    if z3.is_string_value(x):
+        c = x.as_string()
+        return [(z3.BoolVal(True), c)] if c and c.isascii() and "\\" not in c else []
+    if z3.is_app(x):
+        k = x.decl().kind()
+        if k == z3.Z3_OP_SEQ_CONCAT and x.num_args() >= 1:
+            return _const_ends(x.arg(x.num_args() - 1 if suffix else 0), suffix, depth + 1)
+        if k == z3.Z3_OP_ITE:
+            c = x.arg(0)
+            return [(z3.And(c, cc), v) for cc, v in _const_ends(x.arg(1), suffix, depth + 1)] + \
+                   [(z3.And(z3.Not(c), cc), v) for cc, v in _const_ends(x.arg(2), suffix, depth + 1)]
+        if x.decl().name() in ("py_lower", "py_upper"):
+            f = (lambda c: c.lower()) if x.decl().name() == "py_lower" else (lambda c: c.upper())
+            return [(cc, f(v)) for cc, v in _const_ends(x.arg(0), suffix, depth + 1)]
+    return []
 
 
 def _ascii_ends(x):
